@@ -262,6 +262,9 @@ type ProtoOutcome struct {
 // ExecProto runs the scenario and returns a violation description or nil.
 func ExecProto(c ProtoCase, bound time.Duration) (*ProtoOutcome, error) {
 	bound *= WatchdogScale()
+	for _, cc := range c.Conns {
+		bound += workAllowance(2*len(cc.stream()), cc.Cuts, true)
+	}
 	var idle time.Duration
 	if c.IdleEnd && c.Transport != "unix" {
 		idle = time.Hour
